@@ -106,7 +106,8 @@ func l2FrameOp(c *ctx, f []string) {
 // l2after: a link-level send that FAILS (an interface index that does not exist), then a plain DISCOVER - no relay, no
 // ciaddr, broadcast flag clear - through HandleMsg4: one failed send may not change where later replies go (C15: such a
 // reply is unicast at link level to the client's hardware address and the offered address, port 68).
-//   l2after => <error of the send|sent> ; <peer ip> <port> <l2 flag> | drop
+//
+//	l2after => <error of the send|sent> ; <peer ip> <port> <l2 flag> | drop
 func l2AfterOp(c *ctx) {
 	op := "l2after"
 	lo, err := net.InterfaceByName("lo")
